@@ -419,6 +419,35 @@ def roundtrip_checks(tier):
                     if not re.fullmatch(r'days since \d{4}-\d{2}-\d{2} \d{2}:\d{2}:\d{2} [+-]\d{1,2}(:?\d{2})?', tu):
                         V(case, "time units have the form '<unit> since YYYY-MM-DD HH:MM:SS <signed offset>'", tu)
             notes.append(case)
+        # a SHOC standard file (its time coordinate is known by name, t) opened without decoding times, and a file with
+        # a duration variable: saved through the convention and opened again, units in the EMS form, values unchanged
+        sh = builders.shoc_standard(2, 2, data_vars={'eta': (('record',) + builders.SHOC_DIMS['face'], numpy.arange(8.0).reshape(2, 2, 2)),
+                                                   'age': (('record',), numpy.array([90, 450], dtype='timedelta64[m]').astype('timedelta64[ns]'))})
+        sh = sh.assign_coords(t=(('record',), numpy.array(['2020-01-01T00:00', '2020-01-02T12:00'], dtype='datetime64[ns]')))
+        sh['t'].encoding.update(units='days since 1990-01-01T00:00:00+10:00', calendar='proleptic_gregorian', dtype='float64')
+        sh['age'].encoding.update(units='minutes', dtype='int64')
+        src = os.path.join(work, 'shoc-undecoded-src.nc')
+        sh.to_netcdf(src)
+        for mode, kw in (('undecoded-times', dict(decode_times=False)), ('decoded', dict())):
+            case = f'roundtrip:shoc_standard:{mode}'
+            out = os.path.join(work, f'shoc-{mode}-out.nc')
+            try:
+                opened = emsarray.open_dataset(src, **kw)
+                opened.ems.to_netcdf(out)
+                with netCDF4.Dataset(out) as B:
+                    tu = B.variables['t'].getncattr('units')
+                if not re.fullmatch(r'days since \d{4}-\d{2}-\d{2} \d{2}:\d{2}:\d{2} [+-]\d{1,2}(:?\d{2})?', tu):
+                    V(case, "time units have the form '<unit> since YYYY-MM-DD HH:MM:SS <signed offset>'", tu)
+                back = emsarray.open_dataset(out)
+                ref = emsarray.open_dataset(src)
+                for name in ('t', 'age', 'eta'):
+                    a, b = ref[name].values, back[name].values
+                    if a.dtype != b.dtype or not numpy.array_equal(a, b):
+                        V(case, 'identical variable values / time instants after the round trip', f'{name}: {a} ({a.dtype}) != {b} ({b.dtype})')
+                back.close(); ref.close(); opened.close()
+                notes.append(case)
+            except Exception as e:
+                V(case, 'saving through the convention succeeds', f'{type(e).__name__}: {e}')
         # a first save that fails (the directory is not there) while the time axis is still undecoded numbers; then the
         # axis is decoded in place on the same Dataset object and the dataset is saved: the units are rewritten
         mem = builders.cf1d(2, 3, data_vars={'temp': (('record', 'y', 'x'), numpy.arange(12.0).reshape(2, 2, 3))})
